@@ -625,6 +625,9 @@ class StyleProperties:
 
     @classmethod
     def has_px(cls, attrib_value: styles.RubyReserveType) -> bool:
+      if attrib_value is styles.SpecialValues.none:
+        return False
+
       return attrib_value.length is not None and attrib_value.length.units == styles.LengthType.Units.px
 
     @classmethod
